@@ -223,20 +223,29 @@ pub fn c11(out: &mut Out, ex: &mut Exec, seed: u64, thorough: bool, paired: bool
         let regs: Vec<u16> = (0..8).map(|r| if r == 6 { 0xF000 } else { rng.u16() }).collect();
         let mut finals = vec![];
         for real in if paired { vec![false, true] } else { vec![rng.chance(1, 3)] } {
-            let mut v = base_setup(&format!("{id}{}", if real { "r" } else { "v" }), real, false, &prog, &kb);
+            // every third GETC case: the key arrives late while keyboard interrupts are enabled (KBSR reads x4000, not x0000,
+            // while waiting) and the program runs at priority 7, so the request is never taken: GETC must keep polling
+            let late = which == 0x20 && id % 3 == 1;
+            let mut v = base_setup(&format!("{id}{}", if real { "r" } else { "v" }), real, false, &prog, if late { &[] } else { &kb });
             // every fifth case runs with ignore_privilege: the routines' entry and RTI must still switch stacks by the PSR alone
             if id % 5 == 4 { v[1] = format!("sim new 0 {} 0 1 0000", real as u8); }
             for (r, d) in regs.iter().enumerate() { v.push(format!("sim rawreg {} {:04x} ffff", r, d)); }
+            if late { v.push("sim hostwrite fffc 8702 ffff 1 0 0 0".into()); v.push("sim hostwrite fe00 4000 ffff 1 0 0 0".into()); }
             // step to the trap, remember the state, run the trap to its return, then to the end
             let pre_steps = if which == 0x20 || which == 0x23 || which == 0x25 { 1 } else { 2 };
             for _ in 0..pre_steps { v.push("sim step".into()); }
             v.push("sim state".into());
-            v.push("sim stepover".into());
+            let state_at = v.len() - 1;
+            if late {
+                for _ in 0..9 { v.push("sim step".into()); }
+                v.push(format!("sim kbpush {}", kb.iter().map(|b| format!("{:02x}", b)).collect::<String>()));
+                v.push("sim stepout".into()); out.hist.hit("getc_late_input_with_kb_interrupt_enabled");
+            } else { v.push("sim stepover".into()); }
             v.push("sim run 5000".into());
             v.push("sim memhash u".into());
             let r = run_lines(out, ex, &v);
             out.evaluations += 4;
-            let before = &r[r.len() - 4]; let after = &r[r.len() - 3]; let fin = &r[r.len() - 2];
+            let before = &r[state_at]; let after = &r[r.len() - 3]; let fin = &r[r.len() - 2];
             out.hist.hit(&format!("trap_{:02x}_{}", which, if real { "real" } else { "virtual" }));
             // contract oracle
             if which != 0x25 {
@@ -456,6 +465,9 @@ pub fn c33(out: &mut Out, ex: &mut Exec, seed: u64, thorough: bool) {
             if want_k != kl { let l = format!("sim lock kb {}", if want_k { kind } else { 0 }); let r = ex.line(&l); out.op(&l, &r); v.push(l); kl = want_k; }
             if want_d != dl { let l = format!("sim lock ds {}", if want_d { kind } else { 0 }); let r = ex.line(&l); out.op(&l, &r); v.push(l); dl = want_d; }
             if let Some(t) = dev { if (t == 0xFE02 && kl) || (t == 0xFE06 && dl) { denied_critical.push(t); } out.hist.hit(&format!("device_access_{:04x}_{}", t, if (t <= 0xFE02 && kl) || (t >= 0xFE04 && dl) { "denied" } else { "free" })); }
+            // every fifth case a debugger watches the keyboard registers between steps with side-effect-free reads (omnipotent
+            // context): they must not consume or disturb anything
+            if id % 5 == 3 && !kl && rng.chance(1, 5) { for l in ["sim hostread fe02 1 0 0 0", "sim hostread fe00 1 0 0 0"] { let r = ex.line(l); out.op(l, &r); v.push(l.to_string()); } out.hist.hit("debugger_peek_at_keyboard"); }
             last = ex.line("sim step"); out.op("sim step", &last); v.push("sim step".into());
             out.evaluations += 1;
             if last.contains("hh=1") || !last.starts_with("ok") { break; }
@@ -473,5 +485,5 @@ pub fn c33(out: &mut Out, ex: &mut Exec, seed: u64, thorough: bool) {
         if seen.insert(crate::simx::fnv(v.iter().flat_map(|l| l.bytes().map(|b| b as u64)))) && (kl || dl || v.iter().any(|l| l.starts_with("sim lock"))) { out.nontrivial += 1; }
         if out.samples.len() < 2 { let mut s = Json::obj(); s.set("input", Json::s(expect.clone())); s.set("locks", Json::Arr(v.iter().filter(|l| l.starts_with("sim lock")).take(12).map(|x| Json::s(x.clone())).collect())); s.set("display", Json::s(ds.clone())); out.sample(s); }
     }
-    out.rule = "GETC/OUT echo programs (input length 1-3, every 10th up to 30) + PUTS, virtual HALT; the harness holds the keyboard / display buffer lock (an exclusive write guard, or in every third case a shared read guard) around chosen step_in calls (try_write then fails deterministically): for short inputs a 16-bit pattern over the first 16 device accesses of the OS routines (KBSR/KBDR/DSR/DDR, identified by PC), otherwise random per-step patterns; every step compared with the model; oracle: display = input bytes exactly once in order, keyboard empty; failures with a lock held at a KBDR read or DDR store are the recorded finding F19".into();
+    out.rule = "GETC/OUT echo programs (input length 1-3, every 10th up to 30) + PUTS, virtual HALT; the harness holds the keyboard / display buffer lock (an exclusive write guard, or in every third case a shared read guard) around chosen step_in calls (try_write then fails deterministically): for short inputs a 16-bit pattern over the first 16 device accesses of the OS routines (KBSR/KBDR/DSR/DDR, identified by PC), otherwise random per-step patterns; in every fifth case side-effect-free host reads of KBDR/KBSR (a debugger's watch) between steps; every step compared with the model; oracle: display = input bytes exactly once in order, keyboard empty; failures with a lock held at a KBDR read or DDR store are the recorded finding F19".into();
 }
